@@ -44,7 +44,7 @@ class Gen:
             if k == 12:
                 # a list of strings, blank items included: every item gets its pass, the index counts all of them
                 v = self.fresh('s'); q = self.fresh('q') if rng.chance(0.6) else None
-                items = [rng.choice(['a', '', ' ', 'b c', 'z']) for _ in range(rng.range(1, 4))]
+                items = [rng.choice(['a', '', ' ', 'b c', 'z', "it\\'s", 'a\\\\b', 'q.r']) for _ in range(rng.range(1, 4))]      # source spellings inside '..'
                 out.append(('forstr', v, q, items, self.absshapes('[$%s%s]' % (v, ':$' + q if q else ''))))
                 continue
             if k < 5 or depth <= 0:
@@ -61,6 +61,8 @@ class Gen:
                 n = rng.range(0, 4)
                 start = F(rng.range(-8, 8), rng.choice([1, 1, 2, 4])); step = F(rng.range(-6, 6), rng.choice([1, 1, 2])) or F(1)
                 out.append(('loop', n, i, start, step, self.body(depth - 1, vars_ + [i])))
+                if n > 0 and rng.chance(0.4):      # after the loop the variable keeps the value of the last pass
+                    out.append(('shape', 'rect', [('xy', '^|h 1'), ('wh', '2'), ('text', 'after:$%s' % i)]))
             elif k < 9:
                 j = self.fresh('j'); n = rng.range(0, 4)
                 kind = rng.choice(['while', 'until'])
@@ -189,7 +191,8 @@ def unroll(ast, env):
         elif t == 'forstr':
             _, v, q, items, body = n
             for k, it in enumerate(items):
-                out.append('<var %s="%s"%s/>' % (v, it, ' %s="%d"' % (q, k) if q else ''))
+                raw = it.replace("\\'", "'").replace('\\\\', '\\')      # the item itself: escapes of the quoted spelling resolved
+                out.append('<var %s="%s"%s/>' % (v, raw, ' %s="%d"' % (q, k) if q else ''))
                 out.append(unroll(body, env))
         elif t == 'iffwd':
             w = 7; c = n[2]
